@@ -33,6 +33,23 @@ def norm_methods(path):
             d[n.name] = ast.dump(n)
         elif isinstance(n, ast.Assign):
             d[n.targets[0].id] = ast.dump(n.value)
+    # what the class needs from the module around it: every free name it uses must be bound the same way
+    used = {x.id for x in ast.walk(cls) if isinstance(x, ast.Name)}
+    for n in t.body:
+        if isinstance(n, ast.Import):
+            for a in n.names:
+                b = (a.asname or a.name).split(".")[0]
+                if b in used:
+                    d[f"<module> import {b}"] = a.name
+        elif isinstance(n, ast.ImportFrom):
+            for a in n.names:
+                b = a.asname or a.name
+                if b in used:
+                    d[f"<module> import {b}"] = f"{'.' * n.level}{n.module or ''}.{a.name}"
+        elif isinstance(n, (ast.FunctionDef, ast.AsyncFunctionDef)) and n.name in used:
+            d[f"<module> def {n.name}"] = ast.dump(n)
+        elif isinstance(n, ast.Assign) and isinstance(n.targets[0], ast.Name) and n.targets[0].id in used:
+            d[f"<module> {n.targets[0].id}"] = ast.dump(n.value)
     return d
 
 
